@@ -78,4 +78,95 @@ def dump(prog):
     ok = bool(rd)
     obs.append(Ob('DUMP', fn.file, sel[0]['l'], 'main', 'prints-image-byte', DISCHARGED if ok else VIOLATED,
                   '' if ok else 'the dump does not print memory_read(%s)' % show(idx), 'prints memory_read(%s)' % show(idx), False))
-    return RuleResult('DUMP', obs, 2, {})
+    # (c) an address that is not listed ends the current dump line: every way round the loop that does not take the
+    #     DL_DATA branch passes the statements that reset the column counter, otherwise the next listed byte is appended to
+    #     the previous line and appears under the wrong address
+    from nk.cfg import natural_loops
+    sel_block = None
+    for bid, b in fn.blocks.items():
+        if b.get('cond') == sel[0]['i']:
+            sel_block = bid
+    loops = natural_loops(fn)
+    inl = [(h, body) for h, body in loops.items() if sel_block in body]
+    if not inl or sel_block is None:
+        raise AnalysisBroken('DUMP: the dump loop was not found')
+    h, body = min(inl, key=lambda x: len(x[1]))
+    t_succ = fn.blocks[sel_block]['s'][0]
+    # the column counter: the variable compared with 16 inside the DL_DATA branch
+    col = None
+    for n in fn.nodes.values():
+        if n['k'] == 'BinaryOperator' and n.get('op') == '==' and const(kids(n)[1]) == 16:
+            w = fn.where.get(n['i'])
+            if w and w[0] in body:
+                col = strip(kids(n)[0], casts=True).get('d')
+    if col is None:
+        raise AnalysisBroken('DUMP: column counter of the dump not recognised')
+    resets = set()
+    for n in fn.nodes.values():
+        if n['k'] == 'BinaryOperator' and n.get('op') == '=' and strip(kids(n)[0], casts=True).get('d') == col and const(kids(n)[1]) == 0:
+            w = fn.where.get(n['i'])
+            if w and w[0] in body and w[0] != sel_block:
+                # only resets outside the DL_DATA branch count (those inside belong to the 16-byte wrap)
+                resets.add(w[0])
+    # blocks of the DL_DATA branch: reachable from its true successor without leaving the body / passing the header
+    data_branch = set()
+    st = [t_succ]
+    while st:
+        x = st.pop()
+        if x in data_branch or x not in body or x == h:
+            continue
+        data_branch.add(x)
+        st.extend(fn.succs(x))
+    resets -= data_branch
+    seen = set()
+    st = [s_ for s_ in fn.succs(h) if s_ in body]
+    escaped = False
+    while st:
+        x = st.pop()
+        if x in seen or x not in body or x in resets or x == t_succ:
+            continue
+        if x == h:
+            escaped = True
+            break
+        seen.add(x)
+        for s_ in fn.succs(x):
+            if s_ == h:
+                escaped = True
+            st.append(s_)
+    obs.append(Ob('DUMP', fn.file, sel[0]['l'], 'main', 'gap-ends-line', VIOLATED if escaped else DISCHARGED,
+                  'the dump loop can go round without listing a byte and without resetting the column counter: data after a gap is '
+                  'appended to the line of the data before it and appears under the wrong address' if escaped else '',
+                  'every iteration that lists nothing resets the column counter'))
+    return RuleResult('DUMP', obs, 3, {})
+
+
+def data_tag(prog):
+    """DATA-TAG: the data directives store their bytes with the DL_DATA marker (-2), because the listing shows a byte
+    either through the CPU's list_output (bytes tagged with a source line, instructions only) or in the "data sections"
+    dump (bytes tagged DL_DATA): a directive that emits through add_bin*() tags its bytes with the line number and
+    they appear in neither."""
+    obs = []
+    files = ('core/directives_data.cpp', 'core/directives_include.cpp')
+    n_emit = 0
+    for fn in prog.functions(lambda f: f.file in files and f.blocks):
+        k = 0
+        for c in sorted(fn.calls(), key=lambda x: x['i']):
+            q = (callee(c) or '').split('(')[0]
+            if q in ('AsmContext::memory_write_inc', 'AsmContext::memory_write'):
+                k += 1
+                n_emit += 1
+                tag = const(call_args(c)[-1])
+                ok = tag == -2
+                obs.append(Ob('DATA-TAG', fn.file, c['l'], fn.q, 'emit#%d' % k, DISCHARGED if ok else VIOLATED,
+                              '' if ok else '`%s` stores a data byte with marker %s instead of DL_DATA (-2): it is left out of the listing\'s '
+                              'data dump' % (show(c)[:60], tag), 'marker DL_DATA', False))
+            elif q in ('add_bin8', 'add_bin16', 'add_bin32', 'add_bin64', 'add_bin'):
+                k += 1
+                n_emit += 1
+                obs.append(Ob('DATA-TAG', fn.file, c['l'], fn.q, 'emit#%d' % k, VIOLATED,
+                              '`%s` in a data directive: add_bin*() tags the bytes with the source line (they are expected to be '
+                              'listed by the CPU\'s list_output, which is only called for instructions), so they appear nowhere in '
+                              'the listing' % show(c)[:60]))
+    if n_emit < 20:
+        raise AnalysisBroken('DATA-TAG: only %d emission calls in the data directives' % n_emit)
+    return RuleResult('DATA-TAG', obs, 20, {})
